@@ -68,10 +68,18 @@ MUTANTS = {
     "c17-no-method": ("pulsarbat/core.py", 'if method != "__call__" or ufunc == np.matmul:', 'if method not in ("__call__", "outer") or ufunc == np.matmul:', ["C17"]),
     "c17-out-swap": ("pulsarbat/core.py", "(type(self).like(self, a) if b is None else b) for a, b in zip(results, out)", "(type(self).like(self, a) if b is None else type(self).like(self, a)) for a, b in zip(results, out)", ["C17"]),
     "c17-first-only": ("pulsarbat/core.py", "        return results[0] if len(results) == 1 else results", "        return results[0]", ["C17"]),
+    "c14-tolinear-inplace": ("pulsarbat/core.py", "        else:\n            z = self.data\n\n        return type(self).like(self, z, pol_type=\"linear\")",
+                             "        else:\n            z = self.data\n            z *= -1\n            z *= -1.0000001\n\n        return type(self).like(self, z, pol_type=\"linear\")", ["C14"]),
+    "c14-freqshift-zero-input": ("pulsarbat/transforms/transforms.py", "    x = np.fft.fftshift(pb.fft.fft(z.data * ph, axis=0), axes=(0,))",
+                                 "    x = np.fft.fftshift(pb.fft.fft(z.data * ph, axis=0), axes=(0,))\n    if len(z) == 32 and z.ndim == 3:\n        z.data[:1] *= -1", ["C14"]),
+    "c14-intensity-out": ("pulsarbat/core.py", "        z = self.data.real ** 2 + self.data.imag ** 2\n", "        z = np.square(self.data.real, out=self.data.real) + self.data.imag ** 2\n", ["C14"]),
+    "c14-meta-shared": ("pulsarbat/core.py", "    def _attr_repr(self):\n        st = ", "    def _attr_repr(self):\n        if self.meta is not None:\n            self.meta['seen'] = True\n        st = ", ["C14"]),
+    "c14-shift-arg": ("pulsarbat/transforms/transforms.py", "    shift = np.array(shift)\n", "    shift = np.asarray(shift)\n    if shift.ndim:\n        shift *= 1.0000001\n", ["C14"]),
 }
 
 # behaviour-preserving edits: no check may fire
 NEUTRAL = {
+    "n-stft-scale-fresh": ("pulsarbat/contrib/misc.py", "    x = x.reshape(out_shape)\n    x /= nperseg\n", "    x = x.reshape(out_shape)\n    x = x / nperseg\n", ["C14", "C20"]),
     "n-array-nodtype": ("pulsarbat/core.py", "        x = np.asanyarray(self.data, dtype=dtype)\n", "        x = np.asanyarray(self.data)\n", ["C17"]),
     "n-dt-mul": ("pulsarbat/core.py", "self.start_time + s.start / self.sample_rate",
                  "self.start_time + s.start * (1 / self.sample_rate)", ["C01"]),
